@@ -195,10 +195,10 @@ CLAIMED = {
    design="6/C05", engine="coq-core",
    technique="Coq proof (list surgery + abstract monoidal category) + extracted-model correspondence + wiring/semantic oracles"),
  "C06": dict(
-   text="11 theorems: every step yielded by normalize is well-typed, is a legal single interchange of the previous "
+   text="12 theorems: every step yielded by normalize is well-typed, is a legal single interchange of the previous "
         "diagram (the trace is a path of guarded adjacent exchanges), permutes the boxes and keeps the denotation in "
         "every strict monoidal category; the result and every yielded step lie in the input's interchanger-equivalence "
-        "class (reachable by interchanges alone); normal_form is well-typed, normal (no move left), a fixed point for any "
+        "class (reachable by interchanges alone); canonicity is reduced to uniqueness of normal diagrams inside one class; normal_form is well-typed, normal (no move left), a fixed point for any "
         "positive fuel, and NotImplementedError only arises from a repeated diagram in the trace.  PARTIAL: canonicity "
         "and termination on connected diagrams are stated (Definitions) but not proved - no confluence proof of the "
         "interchanger system; the check stands in with an exhaustive BFS of each connected diagram's interchanger class "
